@@ -179,6 +179,20 @@ def _const_of(op, st):
     return None
 
 
+VARIANT_DISCR = {'None': 0, 'Some': 1, 'Ok': 0, 'Err': 1, 'Continue': 0, 'Break': 1}
+# pure adaptors through which the variant of an Option / Result is known statically
+ADAPT = {'core::option::Option::ok_or_else': {'Some': 'Ok', 'None': 'Err'}, 'core::option::Option::ok_or': {'Some': 'Ok', 'None': 'Err'},
+         'core::ops::try_trait::Try::branch': {'Ok': 'Continue', 'Err': 'Break', 'Some': 'Continue', 'None': 'Break'},
+         'core::result::Result::ok': {'Ok': 'Some', 'Err': 'None'}, 'core::result::Result::map_err': {'Ok': 'Ok', 'Err': 'Err'},
+         'core::option::Option::map': {'Some': 'Some', 'None': 'None'}, 'core::result::Result::map': {'Ok': 'Ok', 'Err': 'Err'}}
+
+
+def _short_callee(t):
+    c = t.get('callee') or ''
+    import re
+    return re.sub(r'::<[^<>]*(<[^<>]*>[^<>]*)*>', '', c)
+
+
 def _transfer(st, stmts):
     st = dict(st)
     for s in stmts:
@@ -198,8 +212,16 @@ def _transfer(st, stmts):
             v = (not a) if isinstance(a, bool) else None
         elif rv['k'] == 'bin' and rv.get('op') in ('Eq', 'Ne'):
             a, b = _const_of(rv['a'], st), _const_of(rv['b'], st)
-            if a is not None and b is not None:
+            if a is not None and b is not None and not isinstance(a, tuple) and not isinstance(b, tuple):
                 v = (a == b) if rv['op'] == 'Eq' else (a != b)
+        elif rv['k'] == 'agg' and rv.get('ak') == 'adt' and rv.get('variant') in VARIANT_DISCR and \
+                str(rv.get('adt', '')).endswith(('option::Option', 'result::Result', 'ops::control_flow::ControlFlow')):
+            v = ('variant', rv['variant'])
+        elif rv['k'] == 'discr':
+            pl = rv['p']
+            a = st.get(pl['l']) if not pl['pr'] else None
+            if isinstance(a, tuple) and a[0] == 'variant':
+                v = VARIANT_DISCR[a[1]]
         if v is None:
             st.pop(p['l'], None)
         else:
@@ -207,7 +229,24 @@ def _transfer(st, stmts):
     return st
 
 
-def thread_jumps(raw, max_chain=4, rounds=6):
+def _transfer_term(st, t):
+    """Effect of a block terminator on the constant state (calls kill their destination, known adaptors map variants)."""
+    if t['k'] == 'call' and not t['dest']['pr']:
+        st = dict(st)
+        tab = ADAPT.get(_short_callee(t))
+        v = None
+        if tab and t['args']:
+            a = _const_of(t['args'][0], st)
+            if isinstance(a, tuple) and a[0] == 'variant' and a[1] in tab:
+                v = ('variant', tab[a[1]])
+        if v is None:
+            st.pop(t['dest']['l'], None)
+        else:
+            st[t['dest']['l']] = v
+    return st
+
+
+def thread_jumps(raw, max_chain=6, rounds=6):
     blocks = raw['blocks']
     for _ in range(rounds):
         n = len(blocks)
@@ -217,7 +256,6 @@ def thread_jumps(raw, max_chain=4, rounds=6):
                 if s is not None and s < n:
                     preds[s].append(i)
         # forward constant propagation (exit states)
-        state = {0: {}}
         out = {}
         work = [0]
         seen_in = {0: {}}
@@ -225,13 +263,9 @@ def thread_jumps(raw, max_chain=4, rounds=6):
         while work and it < 20000:
             it += 1
             b = work.pop()
-            sin = seen_in[b]
-            so = _transfer(sin, blocks[b]['stmts'])
-            t = blocks[b]['term']
-            if t['k'] == 'call' and not t['dest']['pr']:
-                so.pop(t['dest']['l'], None)
+            so = _transfer_term(_transfer(seen_in[b], blocks[b]['stmts']), blocks[b]['term'])
             out[b] = so
-            for s in _succs(t):
+            for s in _succs(blocks[b]['term']):
                 if s is None or s >= n or blocks[s]['cleanup']:
                     continue
                 if s not in seen_in:
@@ -243,36 +277,50 @@ def thread_jumps(raw, max_chain=4, rounds=6):
                         seen_in[s] = merged
                         work.append(s)
         changed = False
-        for S in range(n):
-            t = blocks[S]['term']
-            if t['k'] != 'switch' or blocks[S]['cleanup']:
+        for M in range(n):
+            if blocks[M]['cleanup']:
                 continue
+            ps = [p for p in preds[M] if not blocks[p]['cleanup']]
+            if len(ps) < 2:
+                continue
+            # forward linear chain M -> ... -> S: assignment-only blocks linked by gotos or by calls to known pure adaptors, ending in a switch
+            chain = [M]
+            S = None
+            while len(chain) <= max_chain:
+                cur = chain[-1]
+                t = blocks[cur]['term']
+                if not all(s_['k'] == 'assign' for s_ in blocks[cur]['stmts']):
+                    break
+                if t['k'] == 'switch':
+                    S = cur
+                    break
+                nxt = None
+                if t['k'] == 'goto':
+                    nxt = t['target']
+                elif t['k'] == 'call' and _short_callee(t) in ADAPT and t.get('target') is not None:
+                    nxt = t['target']
+                if nxt is None or nxt in chain or nxt >= n or blocks[nxt]['cleanup'] or len([p for p in preds[nxt] if not blocks[p]['cleanup']]) != 1:
+                    break
+                chain.append(nxt)
+            if S is None:
+                continue
+            t = blocks[S]['term']
             pl = t['discr'].get('c') or t['discr'].get('m')
             if not pl or pl['pr']:
                 continue
-            # linear chain M -> ... -> S of assignment-only blocks
-            chain = [S]
-            while len(chain) < max_chain:
-                h = chain[0]
-                ps = [p for p in preds[h] if not blocks[p]['cleanup']]
-                if len(ps) == 1 and blocks[ps[0]]['term']['k'] == 'goto' and ps[0] not in chain and all(s_['k'] == 'assign' for s_ in blocks[ps[0]]['stmts']) \
-                        and len(preds[h]) == 1:
-                    chain.insert(0, ps[0])
-                else:
-                    break
-            M = chain[0]
-            ps = [p for p in preds[M] if p not in chain and not blocks[p]['cleanup']]
-            if len(ps) < 2:
-                continue
             for P in ps:
+                if P in chain:
+                    continue
                 pt = blocks[P]['term']
                 if pt['k'] not in ('goto', 'drop') or pt.get('target') != M or P not in out:
                     continue
                 st = dict(out[P])
                 for c in chain:
                     st = _transfer(st, blocks[c]['stmts'])
+                    if c != S:
+                        st = _transfer_term(st, blocks[c]['term'])
                 v = st.get(pl['l'])
-                if v is None:
+                if v is None or isinstance(v, tuple):
                     continue
                 iv = int(v)
                 tgt = None
@@ -281,12 +329,16 @@ def thread_jumps(raw, max_chain=4, rounds=6):
                         tgt = tg
                 if tgt is None:
                     tgt = t['otherwise']
-                # clone the chain for this predecessor
                 first = len(blocks)
                 for ci, c in enumerate(chain):
-                    nb = {'cleanup': False, 'stmts': copy.deepcopy(blocks[c]['stmts']), 'threaded_from': c,
-                          'term': {'k': 'goto', 'target': (len(blocks) + 1) if ci + 1 < len(chain) else tgt, 'span': blocks[c]['term'].get('span')}}
-                    blocks.append(nb)
+                    nxt_clone = (len(blocks) + 1) if ci + 1 < len(chain) else tgt
+                    ct = blocks[c]['term']
+                    if c != S and ct['k'] == 'call':
+                        nt = copy.deepcopy(ct)
+                        nt['target'] = nxt_clone
+                    else:
+                        nt = {'k': 'goto', 'target': nxt_clone, 'span': ct.get('span')}
+                    blocks.append({'cleanup': False, 'stmts': copy.deepcopy(blocks[c]['stmts']), 'threaded_from': c, 'term': nt})
                 pt['target'] = first
                 changed = True
         if not changed:
